@@ -186,17 +186,17 @@ func VerifC08_UnregisterInCallback() {
 // observers whose masks and flags are symbolic: observer i is called for entity e exactly
 // once iff the documented predicate holds for e's transition — the "early-out only for
 // the first entity of a table" optimisation must equal per-entity dispatch.
-func vBatchDispatch(add bool) {
+func vBatchDispatch(add bool, nObs int) {
 	W := vShapePlain(1, 60, 1)
 	vTighten(W.w)
 	evt := OnAddComponents
 	if !add {
 		evt = OnRemoveComponents
 	}
-	s := vArbObservers(evt, 2)
+	s := vArbObservers(evt, nObs)
 	vassume(vpure(func() bool { return invObsIndices(s) }))
 	var count [2][vNE]int
-	for i := 0; i < 2; i++ {
+	for i := 0; i < nObs; i++ {
 		i := i
 		s.obs[i].callback = func(e Entity) {
 			if j := W.indexOf(e); j >= 0 {
@@ -224,7 +224,7 @@ func vBatchDispatch(add bool) {
 		}
 		NewMap1[vPos](W.w).RemoveBatch(NewFilter1[vPos](W.w).Batch(), nil)
 	}
-	for i := 0; i < 2; i++ {
+	for i := 0; i < nObs; i++ {
 		o := s.obs[i]
 		for j := 0; j < W.n; j++ {
 			if !sel[j] {
@@ -250,8 +250,10 @@ func vBatchDispatch(add bool) {
 	}
 	vreach("end")
 }
-func VerifC08T_BatchDispatchAdd()   { vBatchDispatch(true) }
-func VerifC08_BatchDispatchRemove() { vBatchDispatch(false) }
+func VerifC08_BatchDispatchAdd()      { vBatchDispatch(true, 1) }
+func VerifC08_BatchDispatchRemove()   { vBatchDispatch(false, 1) }
+func VerifC08T_BatchDispatchAdd2()    { vBatchDispatch(true, 2) }
+func VerifC08T_BatchDispatchRemove2() { vBatchDispatch(false, 2) }
 
 // ---- C08-H3 (set relations): observers of specific relation components fire iff ALL
 // their observed relations are in the set of relations whose target actually changed in
